@@ -98,10 +98,13 @@ def short_reads(chk: Check) -> None:
     hands over a source that is not positioned at 0): the frames parsed must be the ones parsed with full reads."""
     prog = chk.program
     rule = "C09.DIFF.short-first-read"
-    chk.rule(rule, "with only 1 or 2 bytes delivered to the first short-able read, or a source already positioned after an application header, the parser returns the same frames", floor=30)
+    chk.rule(rule, "with only 1 or 2 bytes delivered to the first short-able read, with MORE than the requested bytes handed to the probe (0x0A-coincidence headers), or with a source already positioned after an application header, the parser returns the same frames, read in the same mode", floor=30)
     for sname, skw in SOURCES:
         for delim in (True, False):
-            for variant in ("short=1", "short=2", "start=4"):
+            # "full, ...": nothing is short, but the header is one of the 0x0A coincidences and the probe may be handed MORE
+            # than the three bytes it asked for (peek returns the whole buffered chunk): how much the transport delivered
+            # must not change the classification
+            for variant in ("short=1", "short=2", "start=4", "full, frame/options length 10"):
                 for integ, mod, parser in PARSERS[:1] + PARSERS[3:4]:
 
                     def scenario(it: Interp) -> Any:
@@ -111,14 +114,25 @@ def short_reads(chk: Check) -> None:
                         if delim:
                             frames.append(w.frame(w.statement_rows(1, 1, "b")))
                         hdr = b"\x20\x0a\x05" if delim else b"\x0a\x05\x0a"
+                        if variant.startswith("full"):
+                            hdr = b"\x0a\x0a\x05" if delim else b"\x0a\x0a\x0a"
                         kw = dict(skw)
-                        if variant.startswith("short"):
+                        if variant.startswith("full"):
+                            pass
+                        elif variant.startswith("short"):
                             kw["short_first_read"] = int(variant[-1])
                         else:
                             hdr = b"HDR:" + hdr
                             kw["start"] = 4
                         inp = K.models.make_input(AIter(iter(frames), "frames"), hdr, **kw)
                         got = it.drain(k.call(k.get(mod, parser), inp))
+                        used = set()
+                        for e in it.events:
+                            if (e["kind"] == "io" and e["method"] == "parse_length_prefixed") or e["kind"] == "parse_input":
+                                used.add("length-prefixed frames")
+                            elif e["kind"] == "frame_pull" and e.get("whole"):
+                                used.add("whole input as one frame")
+                        it.events.append({"kind": "c09_reader", "used": sorted(used)})
                         return len(got), [e for e in it.events if e["kind"] == "misaligned"], [e for e in it.events if e["kind"] == "short_read"]
 
                     inst = f"{sname} | delimited={delim} | {variant} | {integ}.{parser}"
@@ -132,7 +146,7 @@ def short_reads(chk: Check) -> None:
                                 # the documented defect (known finding): a short header makes a delimited stream look non-delimited
                                 chk.fail("C09.TAINT.exact-header", inst, f"pyjelly.parse.ioutils.get_options_and_frames:{branch}:{via}", f"header bytes come from {via}() which delivered {shorted[0]['got']} byte(s): the delimited stream is misread ({it.exc_class_name(out[1].exc)})")
                             else:
-                                chk.fail(rule, inst, f"pyjelly.parse.ioutils.get_options_and_frames:{branch}:{variant.split('=')[0]}-{'delimited' if delim else 'nondelimited'}", f"valid {'delimited' if delim else 'non-delimited'} input raises {it.exc_class_name(out[1].exc)} at {out[1].site} when {'the first read delivers ' + variant[-1] + ' byte(s)' if variant.startswith('short') else 'the source is handed over positioned after a 4-byte application header'}")
+                                chk.fail(rule, inst, f"pyjelly.parse.ioutils.get_options_and_frames:{branch}:{variant.split('=')[0]}-{'delimited' if delim else 'nondelimited'}", f"valid {'delimited' if delim else 'non-delimited'} input raises {it.exc_class_name(out[1].exc)} at {out[1].site} when {'the first read delivers ' + variant[-1] + ' byte(s)' if variant.startswith('short') else 'the header is a 0x0A coincidence and every read is full' if variant.startswith('full') else 'the source is handed over positioned after a 4-byte application header'}")
                             continue
                         n, mis, shorted = out[1]
                         want = 2 if delim else 1
@@ -143,6 +157,9 @@ def short_reads(chk: Check) -> None:
                                 chk.fail("C09.TAINT.exact-header", inst, f"pyjelly.parse.ioutils.get_options_and_frames:{branch}:{shorted[0]['method']}", f"header bytes come from {shorted[0]['method']}() which delivered {shorted[0]['got']} byte(s): {n} of {want} statements are returned")
                             else:
                                 chk.fail(rule, inst, f"pyjelly.parse.ioutils.get_options_and_frames:{branch}:{variant.split('=')[0]}-{'delimited' if delim else 'nondelimited'}", f"{n} of {want} statements are returned")
+                        elif variant.startswith("full") and [e["used"] for e in it.events if e["kind"] == "c09_reader"][-1:] != [["length-prefixed frames"] if delim else ["whole input as one frame"]]:
+                            used = [e["used"] for e in it.events if e["kind"] == "c09_reader"][-1]
+                            chk.fail(rule, inst, f"pyjelly.parse.ioutils.get_options_and_frames:{branch}:full-{'delimited' if delim else 'nondelimited'}", f"a {'delimited' if delim else 'non-delimited'} input whose header is a 0x0A coincidence is read as {used} when the probe is handed the whole buffered chunk")
                         else:
                             chk.ok(rule, inst, {"short_reads": len(shorted)})
 
@@ -206,7 +223,18 @@ def check(chk: Check) -> None:
                         chk.ok("C09.TAINT.exact-header", inst, {"reads": [(e["method"], e.get("n")) for e in ios if e["method"] in ("read", "peek", "read1")]})
                     # -- wrapper ownership
                     raw_after = [e for e in ios if e.get("raw_after_wrap")]
-                    if raw_after:
+                    # a wrapper that has read from an unbuffered source and is then dropped (detach) takes its read-ahead
+                    # with it: no read may follow on that source
+                    dropped = None
+                    for i, e in enumerate(ios):
+                        if e["method"] == "detach" and e.get("had_reads") and not skw["buffered"]:
+                            later = [x for x in ios[i + 1 :] if x["method"] in ("read", "peek", "read1", "readinto", "parse_length_prefixed", "parse")]
+                            if later:
+                                dropped = (e, later[0])
+                                break
+                    if dropped:
+                        chk.fail("C09.OWN.wrapper", inst, f"pyjelly.parse.ioutils:{branch}:wrapper-dropped", f"a BufferedReader that has read from the {sname} is detached and the source is read again afterwards ({dropped[1]['method']}): the bytes the dropped wrapper had buffered beyond what it returned are lost")
+                    elif raw_after:
                         chk.fail("C09.OWN.wrapper", inst, f"pyjelly.parse.ioutils.get_options_and_frames:{branch}", f"{raw_after[0]['method']}() is called on the raw input after it was wrapped (bytes buffered by the wrapper are skipped)")
                     else:
                         chk.ok("C09.OWN.wrapper", inst, None)
